@@ -15,6 +15,20 @@ CLAIMED = {
         "technique": "Coq proof (radix-conversion lemmas, induction) + checked model/code correspondence",
         "design": "DESIGN.md section 8 / C07",
     },
+    "C03": {
+        "text": "Machine-checked proof (Coq 8.16.1) about the executable model of ecmath.py: for every curve satisfying the explicit premise "
+                "curve_facts (group laws of chord-and-tangent addition, order n), point_add never fails on curve points and returns the group "
+                "sum, MSB-first double-and-add equals k-fold addition for EVERY k >= 0, (j+k)P = jP+kP, j(kP) = (jk)P, kG = (k mod n)G, nG = "
+                "identity; private keys are exactly the 32-byte strings in [1,n-1]; key generation is in range for every draw of the random "
+                "source. The premise is PROVED by kernel computation over all points/triples for y^2=x^3+7 over F_43, F_79, F_67, and the same "
+                "generic code is run against the Python re-targeted to those curves (all points, all scalars to 2n+1) and on secp256k1 boundary "
+                "scalars against the extracted model, an independent implementation and OpenSSL.",
+        "note": "PARTIAL for secp256k1 itself: the group laws and the primality of n are a hypothesis of the theorems (classical facts whose Coq "
+                "proofs are not installed), not proved here; everything code-shaped (formulas, case split, loop, range checks, encodings) is "
+                "proved. secrets.randbelow is scripted. Trusted: Coq kernel, extraction, harness, OpenSSL as an extra oracle.",
+        "technique": "Coq proof (abstract group theory + kernel-computed small-curve instances) + checked model/code correspondence",
+        "design": "DESIGN.md section 8 / C03, section 4.5-4.6",
+    },
 }
 
 NOT_YET = {}
